@@ -3,14 +3,14 @@ import json
 
 
 def _ext_case(world, c, i):
-    """CASE line of MC_Ext -> harness case.  `ctx` (when not empty) carries represented extension
-    values that must reach cedar through the request context; otherwise the fixed World is used."""
+    """CASE line of MC_Ext -> harness case.  Events are self-contained (replayable): the request is
+    World's principal/action/resource with a context that is empty or, for the `ctx` coordinates,
+    carries represented extension values that must reach cedar through the request context; the
+    store is empty (no MC_Ext expression touches it)."""
     ctx = c.get("ctx")
-    if isinstance(ctx, dict) and ctx:
-        req = dict(world["req"])
-        req["context"] = ["rec", ctx]
-        return dict(id=i, expr=c["expr"], req=req, store=[])
-    return dict(id=i, world="W", req=world["req"], store=world["store"], expr=c["expr"])
+    req = dict(world["req"])
+    req["context"] = ["rec", ctx if isinstance(ctx, dict) and ctx else {}]
+    return dict(id=i, expr=c["expr"], req=req, store=[])
 
 
 def _flip(r):
